@@ -282,10 +282,10 @@ def coq_cases(tag, imports, cases, shard=400, timeout=600, keep=False):
     return mism, n_eval, errors
 
 
-def coq_eval(tag, imports, exprs, timeout=600):
+def coq_eval(tag, imports, exprs, timeout=600, shard=400):
     """Evaluate a list of (name, gallina expr of type list Z); returns list of int lists."""
     cases = [(e, [0x7FFFFFFF17]) for e in exprs]  # sentinel never equal -> all reported
-    mism, n, errors = coq_cases(tag, imports, cases, timeout=timeout)
+    mism, n, errors = coq_cases(tag, imports, cases, timeout=timeout, shard=shard)
     if errors:
         raise RuntimeError("coq_eval failed: " + "\n".join(errors))
     return [mism.get(i) for i in range(len(exprs))]
